@@ -61,16 +61,20 @@ def _one(arg):
                     viol.append(('faulted-handle-lost', f'faulted handle reports stored object {k[:10]} as absent'))
             except Exception:  # pylint: disable=broad-except
                 pass      # loud failure of the faulted handle is allowed
+        raw_mid = RawState(w.root)
+        interrupted_repack = sc.op[0] in ('repack', 'repack_pack') and (
+            any(r.pack_id == -1 for r in raw_mid.rows) or '-1' in raw_mid.packs and any(r.pack_id == -1 for r in raw_mid.rows)
+            or any(str(r.pack_id) not in raw_mid.packs for r in raw_mid.rows))
         # 1b. ordinary maintenance through the same (faulted) handle must not make things worse: clean_storage() only ever removes
         #     loose copies of objects whose index entry is committed
-        if res.exc is not None and sc.op[0] not in ('repack', 'repack_pack'):
+        if res.exc is not None and not interrupted_repack:
             try:
                 w.h.clean_storage()
             except Exception:  # pylint: disable=broad-except
                 pass
         # 1c. the handle stays in use: a later, unrelated operation that commits (a direct-to-pack write) must not publish anything
         #     the failed operation left pending in the handle's session
-        if res.exc is not None and sc.op[0] not in ('repack', 'repack_pack'):
+        if res.exc is not None and not interrupted_repack:
             probe = b'post-fault-probe-object'
             from ..common import H
             pk = H(probe, w.config['hash_type'])
@@ -183,6 +187,8 @@ def run(tier, report):
     tasks = []
     for sc, labs in zip(scs, labels):
         for i, lab in enumerate(labs):
+            if sc.fault_kinds is not None and lab.split(':')[0] not in sc.fault_kinds:
+                continue          # a scenario with a very long call list: only the listed call kinds are faulted
             tasks.append((sc, i, 'eio', lab))
             if lab.startswith('f.write'):
                 tasks.append((sc, i, 'partial', lab))
